@@ -3,7 +3,7 @@ from .. import conncheck, connmodel
 
 SERVER_FULL = ['eof', 'text', 'binary', 'frag-text', 'frag-bin', 'frag-cont', 'frag-end', 'ping', 'pong',
                'close-1000', 'close-empty', 'reserved-op', 'bad-utf8', 'orphan-cont', 'two', 'silence', 'err', 'ctext', 'cfrag-text']
-HANDSHAKES = ['hs-ok', 'hs-split', 'hs-with-frame', 'hs-deflate', 'hs-deflate-nct', 'hs-404', 'hs-bad-accept', 'hs-oversize']
+HANDSHAKES = ['hs-ok', 'hs-split', 'hs-with-frame', 'hs-deflate', 'hs-deflate-nct', 'hs-404-with-frame', 'hs-bad-accept-with-frame', 'hs-404', 'hs-bad-accept', 'hs-oversize']
 APPS = ['send_text', 'send_ping', 'close']
 
 
